@@ -270,6 +270,11 @@ Proof.
   pose proof (gen_x2d qs x) as [X1 [X2 _]]. pose proof (gen_poly2d cs x) as [P1 [P2 _]]. pose proof (gen_poly2doffset cs offs x) as [O1 [O2 _]].
   pose proof (gen_null x) as [N1 [N2 _]]. repeat split; assumption.
 Qed.
+(* RangesFunction.__call__ / deriv regenerated over abstract operands: the i-th function on the i-th range of the flow, derivatives concatenated *)
+Theorem C01_source_ranges_function : forall (rs : list (nat * nat * fn R)) (x : list R),
+  RangesFunction_call (ranges_of rs) (fobjs_of rs) x = feval (FRanges rs) x /\ RangesFunction_deriv (ranges_of rs) (fobjs_of rs) x = fderiv (FRanges rs) x.
+Proof. intros rs x. exact (gen_ranges rs x). Qed.
+
 
 (* ---- sums over contiguous slot ranges: if every summand has a total derivative on its own range, so has the sum, and it is the
    concatenation of the per-range gradients; hence CDevice2 with ANY number of contiguous cumulative ranges. Proofs/RangedTotal.v ---- *)
